@@ -205,6 +205,72 @@ func runCheck(P *Program, DB *ContractDB, prop, tier string, only string) *check
 		}
 		obls = append(obls, rep.Obligations...)
 	}
+	for _, name := range sortedKeys(DB.ZeroGlobals) {
+		has := false
+		for _, p := range DB.ZeroGlobals[name] {
+			if p == prop {
+				has = true
+			}
+		}
+		if !has || only != "" && !strings.Contains(name, only) {
+			continue
+		}
+		rep := VerifyZeroGlobal(P, DB, name, prop)
+		res.reports = append(res.reports, rep)
+		res.funcs = append(res.funcs, rep.Func)
+		obls = append(obls, rep.Obligations...)
+	}
+	for _, name := range sortedKeys(DB.ConstGlobals) {
+		has := false
+		for _, p := range DB.ConstGlobals[name] {
+			if p == prop {
+				has = true
+			}
+		}
+		if !has || only != "" && !strings.Contains(name, only) {
+			continue
+		}
+		rep := VerifyConstGlobal(P, DB, name, prop)
+		res.reports = append(res.reports, rep)
+		res.funcs = append(res.funcs, rep.Func)
+		obls = append(obls, rep.Obligations...)
+	}
+	for _, wd := range DB.Writes {
+		has := false
+		for _, p := range wd.Props {
+			if p == prop {
+				has = true
+			}
+		}
+		if !has || only != "" && !strings.Contains(wd.Field, only) {
+			continue
+		}
+		rep := VerifyWrites(P, DB, wd, prop)
+		res.reports = append(res.reports, rep)
+		res.funcs = append(res.funcs, rep.Func)
+		for _, e := range rep.Errors {
+			res.errors = append(res.errors, "contract-unresolved: "+e)
+		}
+		obls = append(obls, rep.Obligations...)
+	}
+	for _, cd := range DB.Covers {
+		has := false
+		for _, p := range cd.Props {
+			if p == prop {
+				has = true
+			}
+		}
+		if !has || only != "" && !strings.Contains(cd.Spec, only) {
+			continue
+		}
+		rep := VerifyCover(P, DB, cd, prop)
+		res.reports = append(res.reports, rep)
+		res.funcs = append(res.funcs, "covers "+cd.Spec)
+		for _, e := range rep.Errors {
+			res.errors = append(res.errors, "contract-unresolved: "+e)
+		}
+		obls = append(obls, rep.Obligations...)
+	}
 	res.genS = time.Since(t0).Seconds()
 	t1 := time.Now()
 	timeout := 10
@@ -424,17 +490,12 @@ func writeEvidenceFile(P *Program, DB *ContractDB, res *checkResult, prop, tier 
 		assumptions = append(assumptions, a)
 	}
 	for k, v := range callees {
-		if strings.HasPrefix(v, "contract(ext)") || strings.HasPrefix(v, "contract(iface)") || strings.HasPrefix(v, "pure") || v == "model" || v == "havoc" {
+		if strings.HasPrefix(v, "contract(ext)") || strings.HasPrefix(v, "contract(iface)") || strings.HasPrefix(v, "contract(trusted") || strings.HasPrefix(v, "pure") || v == "model" || v == "havoc" {
 			assumptions = append(assumptions, fmt.Sprintf("callee %s: %s", k, v))
 		}
 	}
 	for k, v := range unmodelled {
 		assumptions = append(assumptions, fmt.Sprintf("abstracted: %s (x%d)", k, v))
-	}
-	for name, k := range DB.Funcs {
-		if k.Trusted && k.hasProp(prop) {
-			assumptions = append(assumptions, "trusted contract (body not verified): "+name)
-		}
 	}
 	assumptions = append(assumptions, extraAssumptions(prop)...)
 	sort.Strings(assumptions)
